@@ -590,6 +590,7 @@ def _context(case, i):
     h = case["hist"]
     prev = h[i - 1] if i >= 1 else {"k": "", "p": "", "c": "", "x": "", "y": ""}
     return {"prev": prev, "prev_token": f"{prev['k']}:{prev['x']}" if i >= 1 else "",
+            "after_rmiov": any(a["k"] == "rmiov" for a in h[:i]),
             "mat_extended": any(a["p"] == "MAT" and a["k"] in ("addcov", "addiov", "transform", "addiiv") for a in h[:i])}
 
 
@@ -622,10 +623,11 @@ def exec_history(arg):
             break
         ev["act"] = act
         ev["p_assignments_gt1"] = bool(act["p"]) and P.assigned_names(m1).count(act["p"]) > 1
+        ev["dup_identical_assignment"] = _dup_identical(m1, act["p"])
         pr = ev.pop("_problem", None)
         if pr:
             problems.append(("internal", {"model": case["model"], "hist": case["hist"][: i + 1], "step": act,
-                                          "p_assignments_gt1": ev["p_assignments_gt1"], **pr}))
+                                          "p_assignments_gt1": ev["p_assignments_gt1"], **_context(case, i), **pr}))
         ev.setdefault("frame", [])
         ev.setdefault("undo", [])
         if act["k"] in ("rmcov", "rmiiv", "rmiov") and i >= 1:
@@ -633,6 +635,14 @@ def exec_history(arg):
         events.append(ev)
         models.append(m2)
     return {"trace": {"model": case["model"], "events": events}, "problems": problems, "seed": seed}
+
+
+def _dup_identical(model, p):
+    """the parameter is assigned twice by literally the same statement (left behind by some absorption setters)"""
+    from pharmpy.model import Assignment
+
+    seen = [str(s.expression) for s in model.statements if isinstance(s, Assignment) and str(s.symbol) == p]
+    return bool(p) and len(seen) != len(set(seen))
 
 
 def _from_canonicalisation(e):
@@ -881,6 +891,7 @@ def main(tier: str, seed: int) -> int:
                            "outcome": OUTCOME[field], "noop": c["noop"][i], "seed": s,
                            "same_kind_before": act["k"] == "seterr" and _errkind_before(c, i) == act["x"], **_context(c, i),
                            "depot_before": ev.get("depot_before"), "p_assignments_gt1": ev.get("p_assignments_gt1"),
+                           "dup_identical_assignment": ev.get("dup_identical_assignment"),
                            "event": {k: ev[k] for k in ev if k not in ("frame", "undo")}}
                     v.violation(rec, f"{act['k']}({act['p']},{act['c']},{act['x']},{act['y']}) on {c['model']} after {[a['k'] for a in c['hist'][:i]]}: {OUTCOME[field]}")
     nontrivial = {json.dumps(c["hist"], sort_keys=True) for c, _ in owners if not all(c["noop"])}
